@@ -33,6 +33,7 @@ type Client struct {
 	rs    *dragonboat.RequestState
 	op    *histOp
 	issuedTick int64
+	commitAtIssue uint64 // highest commit index seen on any replica when the request was issued
 	committedSeen int
 	session *client.Session
 	final     bool
@@ -168,6 +169,7 @@ func (c *Client) act() {
 	c.hinc = h.inc
 	c.phase = 1
 	c.issuedTick = h.ticks
+	c.commitAtIssue = s.orc.maxCommitted
 	c.committedSeen = 0
 	s.orc.onAccepted(c)
 }
@@ -240,6 +242,7 @@ func (c *Client) poll() {
 				}
 				c.op, c.phase, c.rs = nil, 0, nil
 			} else {
+				s.orc.onReadIndexCompleted(c)
 				c.phase = 2
 			}
 		default:
